@@ -16,6 +16,7 @@ let () =
                 | "db" -> M_db.handle cmd args
                 | "wal" -> M_wal.handle cmd args
                 | "raft" -> M_raft.handle cmd args
+                | "exec" -> M_exec.handle cmd args
                 | _ -> failwith ("unknown module " ^ m))
              | _ -> failwith "bad line"
            with
